@@ -1,7 +1,7 @@
 """C04 Validation state is derived soundly from validation codes."""
 import re
 from lib import Engine, loc
-from terms import Terms, fact_literals, ret_hits
+from terms import Terms, fact_literals, ret_hits, literal_alternatives, expand_dnf
 
 EXPLANATION = ("All-paths structural rule over unoptimised MIR of ValidationResults::validation_state, its closures, "
                "is_tolerated_manifest_failure_code and Reader::validation_state: every path to `return Valid`/`return Trusted` "
@@ -64,6 +64,7 @@ def deltas_guard(prog, T, fn, facts, strict):
         if dnf1 is None or len(dnf1) != 1 or len(dnf1[0]) != 1 or inner is None:
             continue
         s2, dnf2 = T.truth_dnf(inner)
+        dnf2 = expand_dnf(T, dnf2)
         if not dnf2:
             continue
         X = r'IngredientDeltaValidationResult::validation_deltas\(\w+\)'
@@ -114,9 +115,11 @@ def run(ctx):
         for name, pred in R.items():
             bad = None
             for facts, key in classes.get(cls, []):
-                L = fact_literals(T, fn, facts)
-                if not pred(L, facts):
-                    bad = (facts, key, L)
+                # a bool helper of the crate that is true on the path is replaced by its condition; the requirement must hold for every way it can be true
+                alts = literal_alternatives(T, fn, facts)
+                failing = [L for L in alts if not pred(L, facts)]
+                if failing:
+                    bad = (facts, key, failing[0])
                     break
             wit = None
             if bad:
